@@ -169,7 +169,6 @@ func MinimizeFile(p runner.Prop, path string) int {
 	return 0
 }
 
-
 // minimizeRawSteps is delta debugging over replays that carry their own list
 // of steps ({"family":..,"steps":[...]}: C09, C14, C15 in-process families).
 func minimizeRawSteps(p runner.Prop, path string, doc, wrapper map[string]json.RawMessage) int {
